@@ -8,7 +8,7 @@ from ovld import Ovld
 
 import gen_dependent as GD
 
-CORPUS = {int: [0, 1, 2, 3, 4, 5, 6, 7, -1, 101, True], str: ["a", "b", "ab", "ca", "xb", "", "abc"], bool: [True, False], tuple: [(1, "a"), (1, 1), (1,), (2, "b"), ("a", 1)]}
+CORPUS = {bytes: [b"ab", b"x"], int: [0, 1, 2, 3, 4, 5, 6, 7, -1, 101, True], str: ["a", "b", "ab", "ca", "xb", "", "abc"], bool: [True, False], tuple: [(1, "a"), (1, 1), (1,), (2, "b"), ("a", 1)]}
 
 
 def main():
@@ -42,7 +42,8 @@ def main():
         import itertools
 
         for probe in probes:
-            for vals in itertools.product(*[CORPUS[c] for c in probe]):
+            pools = [CORPUS[c] if len(probe) < 3 else CORPUS[c][:9:2] + CORPUS[c][7:8] for c in probe]
+            for vals in itertools.product(*pools):
                 n += 1
                 matches = []
                 for hi, row in enumerate(norm):
